@@ -303,12 +303,21 @@ func (f *FnVC) atStore(st *State, x *ssa.Store, p Val, v Val) {
 	if f.Ct == nil || len(f.Ct.AtStores) == 0 {
 		return
 	}
-	fa, ok := x.Addr.(*ssa.FieldAddr)
-	if !ok {
+	var fname string
+	var base *Val
+	switch a := x.Addr.(type) {
+	case *ssa.FieldAddr:
+		stt := unalias(a.X.Type()).Underlying().(*types.Pointer).Elem().Underlying().(*types.Struct)
+		fname = stt.Field(a.Field).Name()
+		b := f.get(a.X)
+		base = &b
+	case *ssa.FreeVar: // captured variable (e.g. a named result of the enclosing function)
+		fname = a.Name()
+	case *ssa.Alloc:
+		fname = a.Comment
+	default:
 		return
 	}
-	stt := unalias(fa.X.Type()).Underlying().(*types.Pointer).Elem().Underlying().(*types.Struct)
-	fname := stt.Field(fa.Field).Name()
 	for _, as := range f.Ct.AtStores {
 		if as.Pattern != fname || as.Action != "assert" {
 			continue
@@ -316,7 +325,9 @@ func (f *FnVC) atStore(st *State, x *ssa.Store, p Val, v Val) {
 		f.acMatched[as]++
 		env := f.bodyEnv(st)
 		env.names["value"] = v
-		env.names["base"] = f.get(fa.X)
+		if base != nil {
+			env.names["base"] = *base
+		}
 		val, err := f.evalSpec(env, as.Clause.Expr, types.Typ[types.Bool])
 		if err != nil {
 			f.E.specError(as.Clause, err)
